@@ -12,7 +12,7 @@ type variation struct {
 	schemeCase, hostCase, esc, nested, port, dots, tabnl, space, emptyFrag int
 }
 
-var nVariants = [9]int{2, 2, 8, 4, 2, 4, 4, 3, 1}
+var nVariants = [9]int{2, 2, 8, 4, 2, 6, 4, 3, 1}
 
 func (v *variation) set(kind, variant int) {
 	switch kind {
@@ -125,7 +125,14 @@ func (b *webBase) build(si int, v *variation) string {
 	case 4:
 		path += "y/%2E%2e/"
 	}
-	path += "p" + v.spell(b.pc, 1) + "/q"
+	path += "p" + v.spell(b.pc, 1) + "/q/"
+	// a dot segment as the LAST segment (directly followed by the query / fragment / end) stands for a trailing slash
+	switch v.dots {
+	case 5:
+		path += "."
+	case 6:
+		path += "z/%2E."
+	}
 	if v.tabnl == 3 {
 		path = path[:2] + "\r" + path[2:]
 	}
@@ -263,7 +270,39 @@ func VerifC18EquivSpec() {
 	verifCheckEquivalent(p, x, y)
 }
 
+// VerifC18EquivQueryPairs: two query parameters whose names are one symbolic unreserved letter each;
+// one name is re-spelled with a single or nested escape. Sorting profiles with repeated decoding must
+// give the same string (the order must not depend on the spelling).
+func VerifC18EquivQueryPairs() {
+	profs := []url.Parser{Semantic, GoogleSafeBrowsing, New(WithSortQuery(SortKeys), WithRepeatedPercentDecoding()), New(WithSortQuery(SortParameter), WithRepeatedPercentDecoding(), WithRemoveFragment())}
+	p := profs[vnd.Pick(len(profs))]
+	n1 := vnd.StrOver(1, "abcxyzABCXYZ019")[0]
+	n2 := vnd.StrOver(1, "abcxyzABCXYZ019")[0]
+	spellName := func(c byte, how int) string {
+		h := string([]byte{hexDigit(c>>4, how%2 == 0), hexDigit(c&15, how%2 == 0)})
+		switch how / 2 {
+		case 0:
+			return "%" + h
+		case 1:
+			return "%25" + h
+		}
+		return "%2525" + h
+	}
+	x := "http://ab.com/p?" + string([]byte{n1}) + "k=1&" + string([]byte{n2}) + "k=2"
+	var y string
+	how := vnd.Pick(6)
+	if vnd.Pick(2) == 0 {
+		y = "http://ab.com/p?" + spellName(n1, how) + "k=1&" + string([]byte{n2}) + "k=2"
+	} else {
+		y = "http://ab.com/p?" + string([]byte{n1}) + "k=1&" + spellName(n2, how) + "k=2"
+	}
+	vnd.Observe("x", x)
+	vnd.Observe("y", y)
+	verifCheckEquivalent(p, x, y)
+}
+
 func init() {
+	verifHarnesses["VerifC18EquivQueryPairs"] = VerifC18EquivQueryPairs
 	verifHarnesses["VerifC18EquivWeb"] = VerifC18EquivWeb
 	verifHarnesses["VerifC18EquivSpec"] = VerifC18EquivSpec
 }
